@@ -4,9 +4,12 @@
 package c02
 
 import (
+	"bytes"
 	"fmt"
+	"sort"
 	"strconv"
 	"strings"
+	"time"
 
 	cmn "github.com/lianxiangcloud/linkchain/libs/common"
 	"github.com/lianxiangcloud/linkchain/libs/crypto"
@@ -155,9 +158,71 @@ var Mutations = []struct {
 			}
 		}
 	}},
+	// duplicate-vote evidence in the proposed block (checkBlockEvidence -> checkDuplicateVoteEvidence on the prevote path,
+	// validateBlock -> VerifyEvidence on the commit path): a genuine equivocation of a validator of the previous height keeps
+	// the block valid; every defective variant must cost the block every correct vote
+	{"dupev-valid", func(b *types.Block) { addDupEv(b, "") }},
+	{"dupev-badsig", func(b *types.Block) { addDupEv(b, "badsig") }},
+	{"dupev-not-validator", func(b *types.Block) { addDupEv(b, "outsider") }},
+	{"dupev-same-vote", func(b *types.Block) { addDupEv(b, "same") }},
+	{"dupev-future-height", func(b *types.Block) { addDupEv(b, "future") }},
+	{"dupev-other-chain", func(b *types.Block) { addDupEv(b, "chain") }},
+	{"dupev-mixed-types", func(b *types.Block) { addDupEv(b, "types") }},
 	{"recover-flag", func(b *types.Block) { b.Header.Recover++ }}, // a recover block while no node is in recover mode: skips the ValidatorsHash check of validateBlock
 	{"data-nil", func(b *types.Block) { b.Data = nil }},
 	{"parenthash", func(b *types.Block) { b.Header.ParentHash[2] ^= 1 }},
+}
+
+// addDupEv appends a DuplicateVoteEvidence against the validator at index 0 of the previous height's set (csim's validators
+// are NewPV(0..n-1) sorted by address; n = the size of the block's last commit), built from two signed prevotes of the previous
+// height; `defect` selects what is wrong with it ("" = nothing).
+func addDupEv(b *types.Block, defect string) {
+	if b.Height <= 1 || b.LastCommit == nil {
+		return
+	}
+	n := len(b.LastCommit.Precommits)
+	pvs := make([]*csim.PV, n)
+	for i := range pvs {
+		pvs[i] = csim.NewPV(i)
+	}
+	sort.Slice(pvs, func(i, j int) bool { return bytes.Compare(pvs[i].GetAddress(), pvs[j].GetAddress()) < 0 })
+	pv := pvs[0]
+	if defect == "outsider" {
+		pv = csim.NewPV(1000)
+	}
+	h := b.Height - 1
+	if defect == "future" {
+		h = b.Height + 5
+	}
+	chain := "verif-chain"
+	if defect == "chain" {
+		chain = "other-chain"
+	}
+	mk := func(typ byte, tag byte) *types.Vote {
+		var id types.BlockID
+		id.Hash[0], id.Hash[1] = 0xd0, tag
+		id.PartsHeader.Total = 1
+		id.PartsHeader.Hash = []byte{tag, 1, 2, 3}
+		v := &types.Vote{ValidatorAddress: pv.GetAddress(), ValidatorIndex: 0, ValidatorSize: n, Height: h, Round: 0,
+			Timestamp: time.Unix(1600000000, 0).UTC(), Type: typ, BlockID: id}
+		pv.SignVote(chain, v)
+		return v
+	}
+	a, c := mk(types.VoteTypePrevote, 1), mk(types.VoteTypePrevote, 2)
+	switch defect {
+	case "same":
+		c = mk(types.VoteTypePrevote, 1)
+	case "types":
+		c = mk(types.VoteTypePrecommit, 2)
+	case "badsig":
+		s := c.Signature.(crypto.SignatureEd25519)
+		s[7] ^= 1
+		c.Signature = s
+	}
+	ev := append([]types.Evidence{}, b.Evidence.Evidence...)
+	ev = append(ev, &types.DuplicateVoteEvidence{PubKey: pv.GetPubKey(), VoteA: a, VoteB: c})
+	b.Evidence = types.EvidenceData{Evidence: ev}
+	b.Header.EvidenceHash = b.Evidence.Hash()
 }
 
 type exec struct {
